@@ -514,6 +514,14 @@ impl JobServer {
             state.destroy_tokens(cheats);
             write_tokens(self.params.cheat_fds.1, state.cheats as usize)
                 .map_err(RedoError::opaque_error)?;
+        } else if self.params.top_level == 0 && !state.has_token() {
+            // We are about to exit without a token: we gave ours up while
+            // waiting for a lock and went on with a cheater token that has
+            // since been cancelled by a finished job.  Our parent will
+            // re-create a token when it sees us exit, so tell it not to, the
+            // same way an exiting cheater does.
+            debug_jobserver!("force_return_tokens: exiting without a token");
+            write_tokens(self.params.cheat_fds.1, 1).map_err(RedoError::opaque_error)?;
         }
         Ok(())
     }
